@@ -5,6 +5,7 @@ import MW.Model.Secrets
 import MW.Model.Sign
 import MW.Drv.Vm
 import MW.Model.KsBytes
+import MW.Model.SignTab
 namespace MW.Drv.Sec
 open MW MW.Model
 
@@ -132,7 +133,7 @@ def envOf (l : Led.St) (w : String) (pass : String) : Sign.Env symCrypto String 
   skOf := fun a => match AMap.get l.own a with | some (w', _) => if w' = w then some a else none | none => none
   params := pass
 
-def toSignTx (t : Ledger.Tx) : Sign.Tx (Sign.Witness symCrypto) :=
+def toSignTx {C : Sign.Crypto} (t : Ledger.Tx) : Sign.Tx (Sign.Witness C) :=
   { version := 1, lock := 0, payload := t.id,
     ins := t.ins.map (fun i => { prev := ⟨i.tx, i.idx⟩, seq := i.seq, wit := none }),
     outs := t.outs.map (fun o => ⟨o.amt, o.addr⟩) }
@@ -148,14 +149,17 @@ def specSign (st : St) (w pass flag : String) (t : Ledger.Tx) : Option String :=
   match AMap.get st.ks.wal w, Sign.parseFlag flag with
   | some (r, _), some fl =>
     let coins := Spec.Chain.coinsOfWallet (Spec.Chain.ledgerOf st.led.own st.led.specChain) w
+    -- a binding output whose transaction sits at / will be mined at a height ≥ the MASSIP-2 warm-up height is spent under
+    -- the engine-level sequence rule (class `bind2`)
+    let up (c : Sign.Class) (h : Nat) : Sign.Class := if c = .bind ∧ st.led.warm ≤ h then .bind2 else c
     let clsOfIn (i : Ledger.Inp) : Option Sign.Class :=
       match coins.find? (fun c => c.tx = i.tx && c.idx = i.idx) with
-      | some c => some (clsOf c.cls)
+      | some c => some (up (clsOf c.cls) c.height)
       | none =>
         match AMap.get st.led.store.pending i.tx with
         | some pt => match pt.outs[i.idx]? with
           | some o => match AMap.get st.led.own o.addr with
-            | some (w', _) => if w' = w && o.cls ≠ .raw then some (clsOf o.cls) else none
+            | some (w', _) => if w' = w && o.cls ≠ .raw then some (up (clsOf o.cls) st.led.specChain.length) else none
             | none => none
           | none => none
         | none => none
@@ -169,6 +173,66 @@ def specSign (st : St) (w pass flag : String) (t : Ledger.Tx) : Option String :=
       some (if pass = r.pass then "ok" else "err:pass")
     else none
   | _, _ => none
+
+-- ------------------------------------------------------------------ signing with the script VM model (oracle tokens)
+
+open Ledger in
+/-- `prevHeight` of signWitnessTx: the height of the block the previous transaction is mined in (the BlockMeta existsMsgTx
+    returns), else SyncedTo + 1 ("it can only be mined above the tip") -/
+def prevHeight (l : Led.St) (w : String) (op : Sign.OutPoint) : Nat :=
+  let s := l.store
+  let cred : Option CredKey :=
+    match AMap.get s.unspent (w, op.tx, op.idx) with
+    | some blk => some ⟨op.tx, blk, op.idx⟩
+    | none => (s.credits.find? (fun e => e.1.tx = op.tx && e.1.idx = op.idx)).map (·.1)
+  let mined : Option Nat :=
+    match cred with
+    | some ck =>
+      match AMap.get s.txrecs (op.tx, ck.blk) with
+      | some loc => match l.node.txByLoc ck.blk.height loc with
+        | some t => if t.id = op.tx then some ck.blk.height else none
+        | none => none
+      | none => none
+    | none => none
+  match mined with
+  | some h => h
+  | none => s.syncedTo + 1
+
+/-- the wallet as signWitnessTx sees it, over real bytes: script hashes and keys from the oracle table; a binding output
+    whose previous height has reached the warm-up height is run under ScriptMASSip2 (class `bind2`) -/
+def envVm (T : SignTab.Tab) (l : Led.St) (w pass : String) (warm : Nat) : Sign.Env (SignTab.tabCrypto T) Bytes where
+  resolve := fun op =>
+    match resolve l w op with
+    | .error e => .error e
+    | .ok po =>
+      let cls := if po.cls = .bind ∧ warm ≤ prevHeight l w op then Sign.Class.bind2 else po.cls
+      .ok ⟨po.amt, cls, SignTab.shOf T po.addr⟩
+  pubOf := fun h =>
+    match SignTab.keyOf T h with
+    | some (a, k) => (match AMap.get l.own a with | some (w', _) => if w' = w then some k else none | none => none)
+    | none => none
+  skOf := fun h =>
+    match SignTab.keyOf T h with
+    | some (a, k) => (match AMap.get l.own a with | some (w', _) => if w' = w then some k else none | none => none)
+    | none => none
+  params := pass
+
+/-- `signTx` with the script VM model as the engine (`vmEngine (tabCodec T)`): the witness the model builds
+    (signature ‖ hash-type byte, redeem script) is run through `ScriptVM.verify` for every input -/
+def signVm (st : St) (w rpass p : String) (fl : Sign.Flag) (tx : Ledger.Tx) (toks : List String) : String :=
+  match SignTab.parseToks toks with
+  | none => "bad-op"
+  | some T =>
+    match T.bad with
+    | why :: _ => "oracle:" ++ why
+    | [] =>
+      match (Sign.signTx (SignTab.tabEngine T) (envVm T st.led w rpass st.led.warm) (Sign.Lock.locked _) p fl (toSignTx tx)).2 with
+      | .ok tx' =>
+        -- the witnesses the model built (and ran through the VM) are, byte for byte, those of the real signed transaction
+        (match SignTab.witnessDiff T tx'.ins with
+         | none => "ok"
+         | some i => s!"ok!witness@{i}")
+      | .error e => errTok e
 
 def gateSpec (st : St) (w pass : String) : Option String :=
   match AMap.get st.ks.wal w with
@@ -370,7 +434,7 @@ def step (st : St) (args : List String) : St × String :=
     let m := Led.joinSorted ((treeEntries st.tree names).map (fun e => layoutItem names e.1 e.2.1 e.2.2))
     (st, (if st.treeOk then m else "err-tree") ++ "\t" ++ sp)
   | ["kscan"] => (st, (if Secrets.scanClean st.ks then "clean" else "LEAK") ++ "\tclean")
-  | ["sign", w, p, flag, t] =>
+  | "sign" :: w :: p :: flag :: t :: toks =>
     match AMap.get st.led.txs t with
     | none => (st, "bad-op")
     | some tx =>
@@ -382,9 +446,12 @@ def step (st : St) (args : List String) : St × String :=
         | none => (st, withSpec "err:flag" sp)
         | some fl =>
           -- SignRawTx ends with ClearPrivKey: every keystore is locked again
-          let res := (Sign.signTx symEngine (envOf st.led w r.pass) (Sign.Lock.locked symCrypto) p fl (toSignTx tx)).2
           let ks := { st.ks with wal := Secrets.clearAll st.ks.wal }
-          let m := match res with | .ok _ => "ok" | .error e => errTok e
+          -- with oracle tokens: the script VM model over real bytes; without (corpus lines): the symbolic engine
+          let m := if toks.isEmpty then
+              (match (Sign.signTx symEngine (envOf st.led w r.pass) (Sign.Lock.locked symCrypto) p fl (toSignTx tx)).2 with
+               | .ok _ => "ok" | .error e => errTok e)
+            else signVm st w r.pass p fl tx toks
           ({ st with ks := ks }, withSpec m sp)
   | ["tx", _, _, _, outs] =>
     -- the harness refuses an output to an address it has never bound (owned A*; strangers X* are implicit)
